@@ -87,6 +87,46 @@ func TestC19(t *testing.T) {
 		seq := 0
 		interesting := false
 
+		// makeTrigger creates a trigger on column col and registers it for judgement.
+		makeTrigger := func(t *rapid.T, col int) *trigState {
+			seq++
+			tr := &trigState{Name: fmt.Sprintf("trig%d", seq), Col: col}
+			kind := sch.Cols[tr.Col].Kind
+			mc.logf("createTrigger %s on %s", tr.Name, sch.Cols[tr.Col].Name)
+			err := mc.C.CreateTrigger(tr.Name, sch.Cols[tr.Col].Name, func(r column.Reader) {
+				if tr.Dropped {
+					if !tr.Unjudged {
+						tr.Late++
+					}
+					return
+				}
+				if victim := tr.DropOnCall; victim != nil {
+					tr.DropOnCall = nil
+					if !victim.Dropped {
+						mc.logf("  [trigger %s drops trigger %s from inside the commit]", tr.Name, victim.Name)
+						mc.C.DropTrigger(victim.Name)
+						victim.Dropped, victim.Unjudged = true, true
+					}
+				}
+				ev := trigEvent{Off: r.Index(), Delete: r.IsDelete()}
+				if r.IsUpsert() {
+					ev.V = decodeReader(kind, r)
+				}
+				tr.Events = append(tr.Events, ev)
+			})
+			if err != nil {
+				mc.fail(t, "CreateTrigger: %v", err)
+			}
+			trigs = append(trigs, tr)
+			return tr
+		}
+		// DDL armed for the moment the next committing transaction stands in front of its first block
+		// latch (yield point commit:pre-latch, no lock held; issued from the committing goroutine
+		// itself): a trigger created there exists before anything of the commit is applied and must
+		// be told everything, a trigger dropped there must be told nothing.
+		ddlCreateCol, ddlDrop := -1, (*trigState)(nil)
+		defer column.SetVerifHook(nil)
+
 		runTxn := func(t *rapid.T) {
 			spec := genTxn(t, mc.M, mc.Recent, cfg)
 			pre := map[uint32]MRow{}
@@ -106,7 +146,32 @@ func TestC19(t *testing.T) {
 				tr.Events = tr.Events[:0]
 			}
 			direct := len(spec.Steps) == 1 && spec.FailAt < 0 && rapid.Bool().Draw(t, "direct")
+			if ddlCreateCol >= 0 || ddlDrop != nil {
+				column.SetVerifHook(func(point string, block uint32) {
+					if point != "commit:pre-latch" {
+						return
+					}
+					column.SetVerifHook(nil)
+					if ddlCreateCol >= 0 {
+						mc.logf("  [in front of the commit's first latch:]")
+						makeTrigger(t, ddlCreateCol)
+						mc.flag("trigger-created-in-front-of-the-latch")
+						interesting = true
+					}
+					if ddlDrop != nil && !ddlDrop.Dropped {
+						mc.logf("  [in front of the commit's first latch: dropTrigger %s]", ddlDrop.Name)
+						if err := mc.C.DropTrigger(ddlDrop.Name); err != nil {
+							mc.fail(t, "DropTrigger: %v", err)
+						}
+						ddlDrop.Dropped = true
+						mc.flag("trigger-dropped-in-front-of-the-latch")
+						interesting = true
+					}
+					ddlCreateCol, ddlDrop = -1, nil
+				})
+			}
 			eff, committed := mc.RunTxn(t, spec, direct)
+			column.SetVerifHook(nil)
 			res := mc.lastRes
 			deleted := map[uint32]bool{}
 			if committed {
@@ -310,35 +375,31 @@ func TestC19(t *testing.T) {
 						cols = append(cols, i)
 					}
 				}
-				seq++
-				tr := &trigState{Name: fmt.Sprintf("trig%d", seq), Col: cols[rapid.IntRange(0, len(cols)-1).Draw(t, "trig-col")]}
-				kind := sch.Cols[tr.Col].Kind
-				mc.logf("createTrigger %s on %s", tr.Name, sch.Cols[tr.Col].Name)
-				err := mc.C.CreateTrigger(tr.Name, sch.Cols[tr.Col].Name, func(r column.Reader) {
-					if tr.Dropped {
-						if !tr.Unjudged {
-							tr.Late++
-						}
-						return
-					}
-					if victim := tr.DropOnCall; victim != nil {
-						tr.DropOnCall = nil
-						if !victim.Dropped {
-							mc.logf("  [trigger %s drops trigger %s from inside the commit]", tr.Name, victim.Name)
-							mc.C.DropTrigger(victim.Name)
-							victim.Dropped, victim.Unjudged = true, true
-						}
-					}
-					ev := trigEvent{Off: r.Index(), Delete: r.IsDelete()}
-					if r.IsUpsert() {
-						ev.V = decodeReader(kind, r)
-					}
-					tr.Events = append(tr.Events, ev)
-				})
-				if err != nil {
-					mc.fail(t, "CreateTrigger: %v", err)
+				makeTrigger(t, cols[rapid.IntRange(0, len(cols)-1).Draw(t, "trig-col")])
+			},
+			"armDDLInFrontOfLatch": func(t *rapid.T) {
+				if ddlCreateCol >= 0 || ddlDrop != nil {
+					t.Skip("already armed")
 				}
-				trigs = append(trigs, tr)
+				var live []*trigState
+				for _, tr := range trigs {
+					if !tr.Dropped {
+						live = append(live, tr)
+					}
+				}
+				if len(live) > 0 && rapid.Bool().Draw(t, "drop") {
+					ddlDrop = live[rapid.IntRange(0, len(live)-1).Draw(t, "which")]
+					mc.logf("arm: %s is dropped when the next commit stands in front of its first latch", ddlDrop.Name)
+					return
+				}
+				var cols []int
+				for i, cs := range sch.Cols {
+					if cs.Kind != KKey {
+						cols = append(cols, i)
+					}
+				}
+				ddlCreateCol = cols[rapid.IntRange(0, len(cols)-1).Draw(t, "trig-col")]
+				mc.logf("arm: a trigger on %s is created when the next commit stands in front of its first latch", sch.Cols[ddlCreateCol].Name)
 			},
 			"armDropInsideCommit": func(t *rapid.T) {
 				// the next time trigger A is called (inside a commit), it drops trigger B on the same column
